@@ -86,6 +86,16 @@ def w_safe(arg):
         except (SyntaxError, ValueError):
             continue
         opts = dict(case.get("options") or {}, safe=True)
+        if res["cases"] % 2 == 0:
+            # a history: the same module was formatted without the option a moment ago, in this process (what an editor plug-in or a second
+            # pass of a script does); whatever the tool remembers from that call must not leak into the safe one
+            try:
+                from .. import hooks
+
+                hooks.mods()["main"].format_code(text, **dict(case.get("options") or {}))
+                res["unsafe_calls_before"] = res.get("unsafe_calls_before", 0) + 1
+            except Exception:
+                pass
         out, crash, steps = trace.traced_format(text, opts)
         if crash:
             res["crashed"] += 1
@@ -235,7 +245,7 @@ def main() -> int:
         "rule": "a case = one module through format_code(safe=True) (or format_file / the CLI --safe); non-trivial = the module has a surface and safe formatting "
                 "changed its text; distinct by digest",
         "samples": tot.get("samples", [])[:2] or [{"note": "none"}],
-        "modules": {k: tot.get(k) for k in ("cases", "changed", "crashed")},
+        "modules": {k: tot.get(k) for k in ("cases", "changed", "crashed", "unsafe_calls_before")},
         "surface_names_checked": tot.get("surface_names"), "surface_names_kept": tot.get("kept"),
         "entry_points": {k: tot_e.get(k) for k in ("file_runs", "cli_runs")},
     }
